@@ -138,6 +138,8 @@ func decAlphabet(n *DecNode, decoder bool) []DecOp {
 	addBlk([]lz.Seq{{LitLen: 1, MatchLen: u32(W), Offset: 1}}, max(free, 0)+1, false)
 	addBlk([]lz.Seq{{LitLen: 0, MatchLen: 1<<32 - 1, Offset: 1}}, 0, false)
 	addBlk([]lz.Seq{{LitLen: 1<<32 - 1, MatchLen: 1, Offset: 1}}, 2, false)
+	// LitLens whose sum wraps around 2^32: 1 + (2^32-1)
+	addBlk([]lz.Seq{{LitLen: 1, MatchLen: 1, Offset: 1}, {LitLen: 1<<32 - 1, MatchLen: 1, Offset: 1}}, 1, false)
 	addBlk([]lz.Seq{{LitLen: 0, MatchLen: 1, Offset: 1<<32 - 1}}, 0, false)
 	firsts := []lz.Seq{{0, 1, 1, 0}, {2, 3, 2, 0}, {1, 0, 0, 0}, {0, u32(W + 1), 1, 0}, {1, 5, 3, 0}}
 	for _, f := range firsts {
